@@ -83,6 +83,19 @@ type outProv struct {
 	P godi.Provider
 }
 
+// reserved types in a secondary output position that is also a group member
+type outCtxGroup struct {
+	godi.Out
+	A *S3
+	C context.Context `group:"g"`
+}
+
+func outCtxGroupCtor() (outCtxGroup, error) {
+	v, err := mk3("B_outctxgroup", true)
+	return outCtxGroup{A: v, C: context.TODO()}, err
+}
+func multiScopeGroup() (*S3, godi.Scope) { v, _ := mk3("B_multiscopegroup", true); return v, nil }
+
 // addItem performs the Add* call an item stands for.
 func addItem(c godi.Collection, it *RItem) error {
 	add := lifetimeAdder(c, it.Life)
@@ -118,6 +131,12 @@ func addItem(c godi.Collection, it *RItem) error {
 		return add(outProvCtor)
 	case "outnamegroup":
 		return add(outNameGroupCtor)
+	case "outctxgroup":
+		return add(outCtxGroupCtor)
+	case "multiscopegroup":
+		return add(multiScopeGroup, godi.Group("g"))
+	case "asctxgroup":
+		return add(newCtxImpl, godi.As[context.Context](), godi.Group("g"))
 	}
 	fmt.Fprintln(os.Stderr, "registry: unknown bad kind", it.Bad)
 	flushOut()
